@@ -224,6 +224,8 @@ pub fn panic_class(msg: &str) -> String {
 pub struct ReplayReq {
     pub sub: String,
     pub idx: u64,
+    /// replay the cases first..=idx one after the other on ONE thread (a failure that needs the calls made before it)
+    pub first: Option<u64>,
 }
 
 pub struct Run {
@@ -245,6 +247,8 @@ pub struct Run {
     pub min_nontrivial: usize,
     /// distinct non-trivial cases counted by child legs (they report a count, not digests)
     pub leg_nontrivial: usize,
+    /// set by the supervisor: the replay file of the reported case must replay this prefix on one thread
+    pub replay_prefix_from: Option<u64>,
 }
 
 impl Run {
@@ -276,6 +280,7 @@ impl Run {
             leg: None,
             min_nontrivial: 2,
             leg_nontrivial: 0,
+            replay_prefix_from: None,
         }
     }
 
@@ -311,10 +316,11 @@ impl Run {
                 if r.sub.replace(' ', "_") != name.replace(' ', "_") {
                     return;
                 }
-                (r.idx, r.idx + 1)
+                (r.first.unwrap_or(r.idx).min(r.idx), r.idx + 1)
             }
             None => (0, ncases),
         };
+        let threads = if self.replay.as_ref().map(|r| r.first.is_some()).unwrap_or(false) { 1 } else { threads };
         let next = AtomicU64::new(first);
         let harness_err: Mutex<Option<String>> = Mutex::new(None);
         let truncated = AtomicBool::new(false);
@@ -360,7 +366,7 @@ impl Run {
                                     loop {
                                         x = std::hint::black_box(x.wrapping_add(1));
                                     }
-                                } else {
+                                } else if kind == "abort" || (kind == "flaky" && !replaying) {
                                     std::process::abort();
                                 }
                             }
@@ -443,7 +449,7 @@ impl Run {
                     let idx = j.get("index").and_then(|s| s.as_u64()).unwrap_or(0);
                     self.merged.viol.push(Violation {
                         sub,
-                        sig: format!("[{}] {}", leg, sig),
+                        sig: format!("[{}] {}", leg.trim_end_matches(|c: char| c.is_ascii_digit()), sig),
                         idx,
                         detail: j,
                     });
@@ -508,7 +514,7 @@ impl Run {
             let class = crate::ctx::panic_class(panic_line.trim_start_matches("panic: "));
             self.merged.viol.push(Violation {
                 sub: leg.to_string(),
-                sig: format!("[{}] the process aborted inside the library (status {}): {}", leg, status.unwrap_or(0), class),
+                sig: format!("[{}] the process aborted inside the library (status {}): {}", leg.trim_end_matches(|c: char| c.is_ascii_digit()), status.unwrap_or(0), class),
                 idx: 0,
                 detail: J::obj().set("leg", leg).set("log", log_path).set("last_case", last_case).set("panic", panic_line),
             });
@@ -546,7 +552,7 @@ impl Run {
                 .join(" ");
             self.merged.viol.push(Violation {
                 sub: leg.to_string(),
-                sig: format!("[{}] {}", leg, stable.chars().take(200).collect::<String>()),
+                sig: format!("[{}] {}", leg.trim_end_matches(|c: char| c.is_ascii_digit()), stable.chars().take(200).collect::<String>()),
                 idx: 0,
                 detail: J::obj().set("leg", leg).set("log", log_path).set("report", e.clone()),
             });
@@ -635,6 +641,10 @@ impl Run {
         for v in std::mem::take(&mut self.merged.viol) {
             by_sig.entry(v.sig.clone()).or_default().push(v);
         }
+        if self.leg.is_some() {
+            // the library's front end may have left the cursor in the middle of a line
+            println!();
+        }
         let mut unknown = 0usize;
         let mut known_hits = 0usize;
         let mut printed = 0usize;
@@ -653,7 +663,7 @@ impl Run {
             let dir = format!("{}/replays/{}", VERIF_DIR, self.prop);
             let _ = std::fs::create_dir_all(&dir);
             let path = format!("{}/{:016x}.json", dir, h);
-            let rep = J::obj()
+            let mut rep = J::obj()
                 .set("property", self.prop.clone())
                 .set("tier", self.tier.name())
                 .set("seed", self.seed)
@@ -666,6 +676,9 @@ impl Run {
                     "replay_cmd",
                     format!("./check {} {} --replay {}", self.prop, self.tier.name(), path),
                 );
+            if let Some(f) = self.replay_prefix_from {
+                rep.put("prefix_from", f);
+            }
             if self.leg.is_none() {
                 let _ = std::fs::write(&path, rep.to_string_pretty());
             }
@@ -770,7 +783,9 @@ impl Run {
             return if unknown > 0 { 1 } else { 0 };
         }
 
-        if self.replay.is_some() {
+        // (a replay of a whole prefix of cases, made by the supervisor after a fatal case, is a run in its own right:
+        // it writes evidence like any other)
+        if self.replay.as_ref().map(|r| r.first.is_none()).unwrap_or(false) {
             println!(
                 "REPLAY property={} violations={} evaluations={}",
                 self.prop, unknown, self.merged.evals
